@@ -70,6 +70,11 @@ CLAIMED = {
     text='confined_partial (any build root, any relative remainder without .. components) and stripped_suffix_is_relative are proved; the full statement is false on the code (escape_witness, finding F-C19-a: .. components and unvalidated toolchain ids), which the monitor reproduces on the real functions; the model of Path::join / join_suffix is diffed against the real code on thousands of adversarial path pairs. The sandboxed half (bubblewrap, overlayfs) cannot be run here: partial.',
     note='Trusted: Lean kernel, Model/Paths.lean (tied by hook H6). Known finding F-C19-a. No bubblewrap/docker in this sandbox.',
     ref='DESIGN.md section 4 C19, Appendix A.8, B.22'),
+
+ 'C12': dict(technique='Lean 4 proof (induction over swap histories of the memo model; key separation through C02) + differential correspondence on the real compiler_info + end-to-end swap histories against direct runs',
+    text='memo_fresh holds for every history of binaries at a path in which equal mtime implies equal contents, and different_binaries_different_keys (via the C02 theorems) separates results of different binaries; the real SccacheService::compiler_info is compared with the model (digest used per request, re-detection) on swap histories, and a live server is driven through copy- and symlink-swaps of wrapper compilers with every result compared to a direct run.',
+    note='Trusted: Lean kernel, Model/Memo.lean (tied by h_memo). A replacement restoring an earlier mtime with new contents is outside the statement (kernel-checked witness, recorded).',
+    ref='DESIGN.md section 4 C12, Appendix B.9'),
 }
 NA_REASON = 'not yet wired into ./check in this round (model and theorems exist under lean/; see DESIGN.md section 0.1)'
 def hooks():
